@@ -24,7 +24,7 @@ CHECKS = {
          E1NOTE + "Scratch modules use language version go1.23 (per-iteration loop variables): the single known finding of C03 depends on that."),
  "C04": ("E1 diff-trace",
          "runtime differential monitor: range loops inside compiled generators vs Go's native range statement executing the same text on the reference coroutine; systematic kinds x forms x bodies x mutations",
-         "Exploration: the whole systematic cross product (both tiers; ~2900 programs) of 48 collection kinds (strings, slices, arrays, maps, channels, integers incl. constants / typed constants / calls, literal conversions []rune(s) / []byte(s) / string(bs), defined and directional collection types, element types of every kind, and the kinds the compiler leaves native: pointer to array incl. nil, range over func) x up to 8 variable forms x 10 body shapes (yielding, native, in a closure, break/continue, nested, iteration variable updated, captured by closures ...) x mutations of the ranged collection, + directed cases; the thorough tier adds the other wrapping variant of every range expression and a second generator form; full-trace equality, range expression evaluation counted.",
+         "Exploration: the whole systematic cross product (both tiers; ~2900 programs) of 43 collection kinds (strings, slices, arrays, maps, channels, integers incl. constants / typed constants / calls, literal conversions []rune(s) / []byte(s) / string(bs), defined and directional collection types, element types of every kind, and the kinds the compiler leaves native: pointer to array incl. nil, range over func) x up to 8 variable forms x 10 body shapes (yielding, native, in a closure, break/continue, nested, iteration variable updated, captured by closures ...) x mutations of the ranged collection, + directed cases; the thorough tier adds the other wrapping variant of every range expression and a second generator form; full-trace equality, range expression evaluation counted.",
          E1NOTE + "Multi-entry maps are compared as sorted multisets (map order is random)."),
  "C05": ("E1 diff-trace",
          "runtime monitor of delegating generator call graphs vs the reference coroutine (full interleaved trace incl. argument evaluation and delegate-side effects), plus metamorphic twins with the delegation spelled out as a range loop",
